@@ -77,8 +77,10 @@ def build_cases(ctx, res):
     tds += [("grid", td) for td in g]
     k = 0
     while k < ctx.scale(150, 3000):
-        td = gen.timing(rng, small=rng.random() < .5)
-        if gen.td_in_domain(td):
+        zero = rng.random() < .35
+        td = gen.timing(rng, small=rng.random() < .5, zero=zero)
+        if zero: res.count("timing_data_with_zero_lengths_allowed")
+        if gen.td_in_domain(td, zero_ok=True):
             tds.append(("random", td)); k += 1
     tds += [("corpus:" + n, td) for n, td in corpus_timings()]
     return tds
